@@ -63,7 +63,24 @@ def rust_ty(t, lt, in_struct=False):
     if k == "cb":
         ret = "" if t["r"]["k"] == "unit" else " -> " + rust_ty(t["r"], lt)
         return "impl Fn(%s)%s" % (", ".join(rust_ty(a, lt) for a in t["ps"]), ret)
+    if k == "trait":
+        return "impl " + t["n"]
     raise ValueError(k)
+
+
+def trait_decls(cases):
+    """`pub trait` items for every trait used by a parameter of the catalogue (declared once per name, inside the bridge module)"""
+    seen, out = set(), []
+    for _, sig in cases:
+        for p in sig["params"]:
+            if p["k"] == "trait" and p["n"] not in seen:
+                seen.add(p["n"])
+                ms = []
+                for q, m in enumerate(p["ms"]):
+                    ret = "" if m["r"]["k"] == "unit" else " -> " + rust_ty(m["r"], None)
+                    ms.append("        fn t%d(&self%s)%s;\n" % (q, "".join(", a%d: %s" % (j, rust_ty(a, None)) for j, a in enumerate(m["ps"])), ret))
+                out.append("    pub trait %s {\n%s    }\n" % (p["n"], "".join(ms)))
+    return "".join(out)
 
 
 def mentions_borrow(t):
@@ -156,7 +173,7 @@ def module(defs, cases, bodies=None, kotlin_errors=True, name="ffi", host_data=N
     import json as _j
     hd = host_data or ("x", [0], [0], [0])
     ctors = CTORS % (_j.dumps(hd[0], ensure_ascii=False), _j.dumps(hd[1]), _j.dumps(hd[2]), _j.dumps(hd[3]))
-    return "#[diplomat::bridge]\npub mod %s {\n%s%s%s}\n" % (name, prelude(defs, kotlin_errors, type_attr), ctors, impls), syms
+    return "#[diplomat::bridge]\npub mod %s {\n%s%s%s%s}\n" % (name, prelude(defs, kotlin_errors, type_attr), trait_decls(cases), ctors, impls), syms
 
 
 def uses_nonptr_option(sig):
